@@ -127,10 +127,10 @@ type LogEnv struct {
 	// NS selects the bucket (object-key namespace) the monitors and audits
 	// look at; calls of instances attached to another bucket go to
 	// onForeignBucket.
-	NS string
-	truthMC      *merkleCache
-	auditN       int64
-	pubAudits    int64
+	NS        string
+	truthMC   *merkleCache
+	auditN    int64
+	pubAudits int64
 }
 
 var envCounter atomic.Int64
@@ -374,7 +374,17 @@ func (e *LogEnv) AuditStored(sth *RefSTH) []AuditProblem {
 
 // WaitAck calls the submission's wait function and records the outcome.
 func (li *LogInst) WaitAck(ctx context.Context, s *Sub) *Ack {
-	le, err := s.Wait(ctx)
+	var le *sunlight.LogEntry
+	var err error
+	func() {
+		defer func() {
+			if p := recover(); p != nil {
+				err = fmt.Errorf("wait function panicked: %v", p)
+				li.Env.violate("wait-function-panicked", "the wait function of submission %d (source %s) panicked instead of returning an outcome: %v", s.ID, s.Source, p)
+			}
+		}()
+		le, err = s.Wait(ctx)
+	}()
 	a := &Ack{Sub: s, Err: err}
 	e := li.Env
 	e.W.mu.Lock()
